@@ -38,12 +38,31 @@ UsesView(x) == [f \in Files |-> [j \in 1..Len(x.usages[f]) |->
 UbfBag(x, n, f) == LET s == SelectSeq(x.ubf[n], LAMBDA u : u.file = f) IN
                    [j \in 1..Len(s) |-> [idx |-> s[j].idx, uk |-> s[j].uk, ui |-> s[j].ui, name |-> s[j].name]]
 
-Matches(x, post) ==
-    /\ \A n \in TNames : DefsView(x)[n] = post.defs[n]
+\* What is compared and what is merely ADOPTED from the log.  The properties speak about which
+\* definitions / usages exist and about answers, not about vector order or the numeric value of the
+\* version counter.  So after an analysis the per-key BAGS of the model and of the logged projection
+\* must be equal; the logged vector ORDER and version NUMBER are adopted into the model state (they
+\* then drive the model's order-dependent picks and cache hits exactly like the code's), with one
+\* obligation: whenever the model invalidates (bumps the version) the logged version must have grown.
+BagOf(seq) == [v \in RangeOf(seq) |-> Cardinality({ i \in 1..Len(seq) : seq[i] = v })]
+SameBag(a, b) == BagOf(a) = BagOf(b)
+
+Matches(x, post, prevVersion) ==
+    /\ \A n \in TNames : SameBag(DefsView(x)[n], post.defs[n])
     /\ \A f \in Files : x.fdefs[f] = RangeOf(post.fdefs[f])
-    /\ \A f \in Files : UsesView(x)[f] = post.usages[f]
-    /\ \A n \in TNames : \A f \in Files : UbfBag(x, n, f) = post.ubf[n][f]
-    /\ x.version = post.version
+    /\ \A f \in Files : SameBag(UsesView(x)[f], post.usages[f])
+    /\ \A n \in TNames : \A f \in Files : SameBag(UbfBag(x, n, f), post.ubf[n][f])
+    /\ post.version >= prevVersion
+    /\ (x.version > prevVersion => post.version > prevVersion)
+
+\* reorder a model sequence like the logged one (same bag): the k-th logged id takes the model record
+\* with that id (records with equal ids are identical)
+PickDef(seq, id) == seq[CHOOSE j \in 1..Len(seq) : seq[j].file = id.file /\ seq[j].idx = id.idx]
+PickUse(seq, u)  == seq[CHOOSE j \in 1..Len(seq) : seq[j].idx = u.idx /\ seq[j].uk = u.uk /\ seq[j].ui = u.ui /\ seq[j].name = u.name]
+Adopt(x, post) ==
+    [x EXCEPT !.defs = [n \in TNames |-> [j \in 1..Len(post.defs[n]) |-> PickDef(x.defs[n], post.defs[n][j])]],
+              !.usages = [f \in Files |-> [j \in 1..Len(post.usages[f]) |-> PickUse(x.usages[f], post.usages[f][j])]],
+              !.version = post.version]
 
 Init == ix = Fresh /\ l = 1
 
@@ -53,8 +72,9 @@ Step ==
     /\ LET e == Rec[l] IN
        CASE e.ev = "reset" -> ix' = Fresh
          [] e.ev = "analyze" ->
-              /\ ix' = AnalyzeFnD(ix, AllDevs, e.f, e.m, e.cleanup)
-              /\ Matches(ix', e.post)
+              LET m1 == AnalyzeFnD(ix, AllDevs, e.f, e.m, e.cleanup)
+              IN  /\ Matches(m1, e.post, ix.version)
+                  /\ ix' = Adopt(m1, e.post)
          [] e.ev = "close" -> ix' = DropCaches(ix, e.f)
          [] e.ev = "goto" ->
               \* find_fixture_definition at the logged usage (self-named fixture parameters resolve outward)
